@@ -234,10 +234,13 @@ class Elf(BinFormat):
             size = S.p_filesz + ELF_PAGEOFFSET(S.p_vaddr)
             off  = S.p_offset - ELF_PAGEOFFSET(S.p_vaddr)
             addr = ELF_PAGESTART(S.p_vaddr)
-            size = ELF_PAGEALIGN(size)
             self.__file.seek(off)
             base = addr
+            # only p_filesz bytes are backed by the file, the rest of the
+            # segment (up to p_memsz, extended to the page) reads as zero:
             bytes_ = self.__file.read(size)
+            memsz = max(S.p_memsz, S.p_filesz) + ELF_PAGEOFFSET(S.p_vaddr)
+            bytes_ = bytes_.ljust(ELF_PAGEALIGN(memsz), b"\x00")
             return {base: bytes_}
         else:
             logger.error("segment not a PT_LOAD [%08x/%0d]" % (S.p_vaddr, S.p_align))
